@@ -214,6 +214,8 @@ pub(super) fn move_while_borrowed(
             }
         });
 
+        // The `Clone` nodes that we insert between this node and its dependencies.
+        let mut clone_node_ids = Vec::new();
         'dependencies: for edge_id in dependency_edge_ids {
             let dependency_index = call_graph.edge_endpoints(edge_id).unwrap().0;
             match call_graph.edge_weight(edge_id).unwrap() {
@@ -221,7 +223,7 @@ pub(super) fn move_while_borrowed(
                     if borrowed_immutably_now.contains(&dependency_index)
                         || borrowed_later.contains(&dependency_index)
                     {
-                        try_clone(
+                        let clone_node_id = try_clone(
                             &mut call_graph,
                             node_index,
                             edge_id,
@@ -232,7 +234,8 @@ pub(super) fn move_while_borrowed(
                             krate_collection,
                             root_scope_id,
                             diagnostics,
-                        )
+                        );
+                        clone_node_ids.extend(clone_node_id);
                     }
                 }
                 CallGraphEdgeMetadata::ExclusiveBorrow => {
@@ -259,6 +262,12 @@ pub(super) fn move_while_borrowed(
         let mut borrowed = borrowed_immutably_now;
         borrowed.extend(&borrowed_mutably_now);
         borrowed.extend(&borrowed_later);
+        // A freshly inserted `Clone` node sits between this node and one of its dependencies, but
+        // it will never be visited by our traversal. We must record what is borrowed downstream
+        // of it, otherwise the ancestors of that dependency lose track of those borrows.
+        for clone_node_id in clone_node_ids {
+            node2borrows.insert(clone_node_id, borrowed.clone());
+        }
         node2borrows.insert(node_index, borrowed);
         visited_nodes.insert(node_index);
 
@@ -296,11 +305,11 @@ fn try_clone(
     krate_collection: &CrateCollection,
     root_scope_id: ScopeId,
     diagnostics: &crate::diagnostic::DiagnosticSink,
-) {
+) -> Option<NodeIndex> {
     let dependency_index = call_graph.edge_endpoints(edge_id).unwrap().0;
     if copy_checker.is_copy(call_graph, dependency_index, component_db, computation_db) {
         // You can't have a "borrow after moved" error for a Copy type.
-        return;
+        return None;
     }
 
     let clone_component_id = call_graph[dependency_index].component_id().and_then(|id| {
@@ -323,7 +332,7 @@ fn try_clone(
             call_graph,
             diagnostics,
         );
-        return;
+        return None;
     };
 
     let clone_node_id = call_graph.add_node(CallGraphNode::Compute {
@@ -340,6 +349,7 @@ fn try_clone(
     );
     call_graph.update_edge(clone_node_id, node_index, CallGraphEdgeMetadata::Move);
     call_graph.remove_edge(edge_id);
+    Some(clone_node_id)
 }
 
 fn emit_ancestor_descendant_borrow_error(
